@@ -26,7 +26,30 @@ class BufWorld(World):
         return self.obj_depth.get(hid, 0) > 0 or self.cls_depth.get(type(h.real), 0) > 0
 
     def res_buffered(self, r):
+        if any(self.cls_depth.get(c, 0) > 0 for c in getattr(self, "ghosts", {}).get(r, ())):
+            return True   # an object dropped by the user inside a class-wide context still counts
         return any(self.is_buffered_obj(i) for i in self.roots() if self.handles[i].res == r)
+
+    def _s_drop(self, s):
+        """The user drops every reference to a root object (and its children) and a GC pass runs."""
+        import gc
+        i = s["h"]
+        if not self.usable(i) or self.handles[i].path:
+            return False
+        if self.obj_depth.get(i, 0) > 0:
+            return False      # its own context is still open: the user still holds the object
+        h = self.handles[i]
+        cls = type(h.real)
+        if not hasattr(self, "ghosts"):
+            self.ghosts = {}
+        if self.cls_depth.get(cls, 0) > 0:
+            self.ghosts.setdefault(h.res, set()).add(cls)
+        for g in self.handles:
+            if g.obj == h.obj:
+                g.attached = False
+                g.real = None
+        gc.collect()
+        self.events["drop"] += 1
 
     def root_of(self, h):
         for i in self.roots():
@@ -140,6 +163,9 @@ class BufWorld(World):
         self._transitions(before, exiting=True)
         self._check_frozen(step=s)
         self.events["exit_" + kind] += 1
+        if kind == "cls" and self.cls_depth.get(key, 0) == 0:
+            for r in list(getattr(self, "ghosts", {})):
+                self.ghosts[r].discard(key)
 
     def _s_op(self, s):
         i = s["h"]
